@@ -224,6 +224,8 @@ pub struct HandshakeOracle {
     connects_client: BTreeMap<usize, u64>,
     connects_server: BTreeMap<(usize, SocketAddr), u64>,
     errors_client: BTreeMap<usize, u8>,
+    /// (server, address, nonce) of delivered connection requests of a foreign protocol version
+    foreign_syns: BTreeSet<(usize, SocketAddr, u32)>,
     /// addresses for which a server reported a terminal event (Disconnect or Error)
     ended_server: BTreeSet<(usize, SocketAddr)>,
     pairs_checked: u64,
@@ -258,6 +260,7 @@ impl HandshakeOracle {
             connects_server: BTreeMap::new(),
             errors_client: BTreeMap::new(),
             ended_server: BTreeSet::new(),
+            foreign_syns: BTreeSet::new(),
             pairs_checked: 0,
             connects_checked: 0,
             forged_seen: 0,
@@ -326,7 +329,10 @@ impl Oracle for HandshakeOracle {
                 }
             }
             Rec::Delivered { dst, src_addr, bytes, accepted: true, .. } if bytes.first() == Some(&FRAME_SYN) && bytes.len() == 1472 && matches!(cx.plan.endpoints[*dst].kind, EndpointKind::Server { .. }) => {
-                if uv::Frame::read(bytes).is_some() {
+                if let Some(uv::Frame::HandshakeSynFrame(f)) = uv::Frame::read(bytes) {
+                    if f.version != 3 {
+                        self.foreign_syns.insert((*dst, *src_addr, f.nonce));
+                    }
                     let e = self.syn_versions.entry((*dst, *src_addr)).or_insert((0, 0));
                     if bytes[1] == 3 {
                         e.0 += 1;
@@ -345,6 +351,15 @@ impl Oracle for HandshakeOracle {
                     (Some(FRAME_SYN_ACK), EndpointKind::Server { .. }) => {
                         if let Some(uv::Frame::HandshakeSynAckFrame(f)) = uv::Frame::read(&w.bytes) {
                             self.synack_sent.entry((w.src, w.dst_addr)).or_default().insert(f.nonce);
+                        }
+                    }
+                    (Some(FRAME_HS_ERR), EndpointKind::Server { .. }) => {
+                        // a request of a foreign protocol version is refused as such, whatever
+                        // else might be said against it (a full server, limits that do not fit)
+                        if let Some(uv::Frame::HandshakeErrorFrame(f)) = uv::Frame::read(&w.bytes) {
+                            if self.foreign_syns.contains(&(w.src, w.dst_addr, f.nonce_ack)) && f.error != uv::HandshakeErrorType::Version {
+                                return viol(prop, "wrong_version_refused_with_other_error", format!("server {} answered the connection request of a foreign protocol version from {} (nonce {:08x}) with the error {:?} instead of Version", w.src, w.dst_addr, f.nonce_ack, f.error), w.call);
+                            }
                         }
                     }
                     _ => (),
